@@ -89,10 +89,12 @@ type Node struct {
 	MasterOf   *Node // nil for masters
 	store      *Store
 	Silent     bool // reads commands but never answers
-	Down       bool
-	ln         vnet.Listener
-	conns      []*vnet.VConn
-	Accepted   int
+	// ResetNextConn: the next accepted connection is reset at once (the node is restarting), then the flag clears.
+	ResetNextConn bool
+	Down          bool
+	ln            vnet.Listener
+	conns         []*vnet.VConn
+	Accepted      int
 	// scripted SCAN: cursor -> (next cursor, keys)
 	ScanChain map[string]ScanStep
 	// BadReplies, when non-nil, maps a lower-case command name to raw bytes sent instead of the real reply.
@@ -246,6 +248,11 @@ func (n *Node) Up() {
 			}
 			vc := conn.(*vnet.VConn)
 			vc.Label = "node-" + n.ID
+			if n.ResetNextConn {
+				n.ResetNextConn = false
+				vc.Reset()
+				continue
+			}
 			var id int
 			n.C.Locked(func() {
 				n.conns = append(n.conns, vc)
